@@ -19,10 +19,20 @@ def fresh_id():
 
 
 _names = itertools.count(1)
+_NAMED = {}
 
 
 def fresh_name(base):
     return f"{base}!{next(_names)}"
+
+
+def reset_fresh():
+    """deterministic naming: every function is verified from the same counter state, so that its verification conditions are
+    textually identical from run to run (needed for the committed proof cache)"""
+    global _names, _ids
+    _names = itertools.count(1)
+    _ids = itertools.count(1)
+    _NAMED.clear()
 
 
 # ------------------------------------------------------------------ values
@@ -401,7 +411,6 @@ def forall_pat(vs, body, patterns):
 
 
 _KCANON = z3.Int("k!canon")
-_NAMED = {}
 
 
 def named_array(elem_real):
